@@ -283,6 +283,7 @@ type runner struct {
 	s     *hx.Sink
 	id    uint64
 	exact bool
+	coded map[string]bool // names of the classes that have a code (keys of errorsToCode, read from the source)
 }
 
 func (r *runner) observe(err error, stage string) (res Obs) {
@@ -474,6 +475,15 @@ func (r *runner) run(c Case) string {
 		w2 = ge.GRPCWrap(w)
 		same, idem = w == e, w2 == w
 		msgkept = ge.FromGRPCErrorMsg(w) == ge.FromGRPCErrorMsg(e)
+		// idempotent: for a chain / tree around ONE class that has a code, wrapping what GRPCWrap returned gives
+		// the same status again - the same code and the same message (the class clauses are judged by the model)
+		if c.Leaf.K == "S" && r.coded[classNames[c.Leaf.C]] && !hasSecondClass(c) && w != nil && w2 != nil {
+			s1, s2 := status.Convert(w), status.Convert(w2)
+			if s1.Code() != s2.Code() || s1.Message() != s2.Message() {
+				s.DirectViolation(c.ID, "GRPCWrap is not idempotent: GRPCWrap(GRPCWrap(e)) has another code or message than GRPCWrap(e)",
+					map[string]any{"code": s1.Code().String(), "code_again": s2.Code().String(), "len_message": len(s1.Message()), "len_message_again": len(s2.Message())})
+			}
+		}
 		t0 := status.Convert(w).Err()
 		tsame = status.Code(t0) == status.Code(w) && ge.FromGRPCErrorMsg(t0) == ge.FromGRPCErrorMsg(w) && (t0 == nil) == (w == nil)
 		var wired bool
@@ -501,6 +511,18 @@ func (r *runner) run(c Case) string {
 }
 
 func nontrivial(c Case) bool { return len(c.Frames) >= 1 }
+
+// hasSecondClass: a layer brings a status error or another class sentinel into the tree (outside the statement)
+func hasSecondClass(c Case) bool {
+	for _, f := range c.Frames {
+		for _, op := range f.Ops {
+			if op.K == "st" || op.K == "cls" {
+				return true
+			}
+		}
+	}
+	return false
+}
 
 // ---- generation ----
 
@@ -541,7 +563,10 @@ func main() {
 	s := hx.NewSink(fl, header(coded), "case")
 	s.Extra["classes_with_code"] = coded
 	s.Extra["classes_with_code_from"] = codedFrom
-	r := &runner{s: s, exact: *exact}
+	r := &runner{s: s, exact: *exact, coded: map[string]bool{}}
+	for _, cn := range coded {
+		r.coded[cn] = true
+	}
 	if *exact {
 		// assumption of the byte-level rendering: sentinel texts and code names contain no ESC byte
 		for i, c := range classes {
